@@ -3,12 +3,12 @@
 package c04
 
 import (
-	"time"
 	"context"
 	"fmt"
 	"runtime"
 	"sync"
 	"sync/atomic"
+	"time"
 
 	eventbus "github.com/jilio/ebu"
 	"verif/busmodel"
